@@ -576,6 +576,7 @@ def apply_sut(sut: TableSUT, op, aux):
         t.set_row_values(yarg(op), op["values"])
     elif n == "set_row_cells":
         cells = [mk_cell(c) for c in op["cells"]]
+        aux["arg"] = cells
         t.set_row_cells(yarg(op), cells)
         if again:
             t.set_row_cells(again["y"], cells)
@@ -588,6 +589,7 @@ def apply_sut(sut: TableSUT, op, aux):
             mat = [line for _ in op["cells"]]
         else:
             mat = [[mk_cell(c) for c in r] for r in op["cells"]]
+        aux["arg"] = mat
         t.set_cells(mat, coord_of(op["c"]) if op.get("c") else None)
     elif n == "set_column_values":
         t.set_column_values(xarg(op), op["values"])
@@ -738,6 +740,10 @@ def reapply_with_arg(t, op, arg):
         t.insert_column(xarg(op), arg)
     elif n == "append_column":
         t.append_column(arg)
+    elif n == "set_row_cells":
+        t.set_row_cells(yarg(op), arg)
+    elif n == "set_cells":
+        t.set_cells(arg, coord_of(op["c"]) if op.get("c") else None)
     else:
         raise ValueError(n)
 
